@@ -109,7 +109,8 @@ ASSUMPTIONS = [
     "C02_drains_partial part 3 assumes the start state is coherent (Link.Coherent: sender invariants — proved for all reachable sender "
     "states —, receiver's cumulative TSN equal to or ahead of the sender's by < 2^31 - |misordered|, misordered set consolidated and "
     "duplicate free) with an empty network, no pending task and T3 armed, and that the chunk following the cumulative ack survives T3 "
-    "(is not abandoned, i.e. belongs to a reliable channel); it yields progress of ONE epoch (for reliable traffic the coherence "
+    "(is not abandoned, i.e. belongs to a reliable channel) and carries a TSN that was assigned, the receiver having only TSNs that "
+    "were assigned (Coherent.sent; needed since SACKs beyond the last TSN assigned are ignored); it yields progress of ONE epoch (for reliable traffic the coherence "
     "hypothesis is derived and the epoch lemma is iterated to full drain in Props/C02Drain.lean; with partial reliability it stays "
     "an assumption and one epoch)",
     "the Link abstraction (Props/C02.lean, Props/C02Drain.lean) delivers one direction's DATA chunks and SACKs only; FORWARD TSN is "
